@@ -13,8 +13,9 @@ CONSTANTS KNOWN
 Rec == ndJsonDeserialize(IOEnv.TRACE)
 VARIABLES l, peers, bad, devs, sid,
           prev,    \* the stores observed at the previous event
-          prior    \* row -> author of the version the acting instance held before its last local operation on the row ("none": no version)
-tvars == <<l, peers, bad, devs, sid, prev, prior>>
+          prior,   \* row -> author of the version the acting instance held before its last local operation on the row ("none": no version)
+          lastop   \* <<p, row>> of the local operation that the current offers follow (<<>>: none)
+tvars == <<l, peers, bad, devs, sid, prev, prior, lastop>>
 Ev == Rec[l]
 NKey(n) == <<n.row, n.ent, n.room, n.m, n.s, n.au, n.text>>
 Nodes(p) == ToSet(Ev.st[p].nodes)
@@ -25,12 +26,15 @@ AuthorIn(s, q, x) == LET S == {k \in ToSet(s[q].nodes) : k.row = x} IN IF S = {}
 \* the kind of change (own row, somebody else's row, new row) is part of what must be equal: the verdicts are compared only when
 \* the witness held, before the offer, a version of the row by the same author as the one the acting instance held before its operation
 SameKind(w, x) == x \in DOMAIN prior => AuthorIn(prev, w, x) = prior[x]
+\* what is compared is the write just made, decided with the definition both sides hold now: older rows of the instance were
+\* accepted under the definition it held then
+JustWritten(p, x) == lastop = <<p, x>>
 \* the witness w has pulled room r from p
 Missing(w, p, r) ==
-    {<<"row-refused-by-peer", p, w, n.row>> : n \in {m \in Nodes(p) : m.room = r /\ NKey(m) \notin {NKey(k) : k \in Nodes(w)} /\ SameKind(w, m.row)
+    {<<"row-refused-by-peer", p, w, n.row>> : n \in {m \in Nodes(p) : m.room = r /\ NKey(m) \notin {NKey(k) : k \in Nodes(w)} /\ SameKind(w, m.row) /\ JustWritten(p, m.row)
                                                /\ ~(\E k \in Nodes(w) : k.row = m.row /\ Newer(k.m, k.s, m.m, m.s))
                                                /\ ~(\E t \in Tombs(w) : t.row = m.row /\ t.m >= m.m)}}
-    \cup {<<"deletion-refused-by-peer", p, w, t.row>> : t \in {u \in Tombs(p) : u.room = r /\ <<u.row, u.m, u.d, u.s>> \notin {<<k.row, k.m, k.d, k.s>> : k \in Tombs(w)}}}
+    \cup {<<"deletion-refused-by-peer", p, w, t.row>> : t \in {u \in Tombs(p) : u.room = r /\ JustWritten(p, u.row) /\ <<u.row, u.m, u.d, u.s>> \notin {<<k.row, k.m, k.d, k.s>> : k \in Tombs(w)}}}
 Step == /\ l <= Len(Rec) /\ Ev.ev \notin {"begin", "end"} /\ l' = l + 1
         /\ LET objs == IF Ev.ev = "offer" /\ Ev.res = "ok" /\ SameDef(Ev.from, Ev.to, Ev.room)
                        THEN Missing(Ev.to, Ev.from, Ev.room) ELSE {}
@@ -40,11 +44,13 @@ Step == /\ l <= Len(Rec) /\ Ev.ev \notin {"begin", "end"} /\ l' = l + 1
         /\ prior' = IF Ev.ev \in {"put", "move", "del", "ref", "unref"} /\ "row" \in DOMAIN Ev
                      THEN [x \in DOMAIN prior \cup {Ev.row} |-> IF x = Ev.row THEN AuthorIn(prev, Ev.p, Ev.row) ELSE prior[x]]
                      ELSE prior
+        /\ lastop' = IF Ev.ev \in {"put", "move", "del", "ref", "unref"} /\ "row" \in DOMAIN Ev THEN <<Ev.p, Ev.row>>
+                      ELSE IF Ev.ev = "offer" THEN lastop ELSE <<>>
         /\ UNCHANGED <<peers, sid>>
 Begin == /\ l <= Len(Rec) /\ Ev.ev = "begin" /\ l' = l + 1 /\ peers' = ToSet(Ev.peers) /\ sid' = Ev.sid /\ bad' = {} /\ devs' = {}
-         /\ prev' = [q \in ToSet(Ev.peers) |-> [nodes |-> <<>>]] /\ prior' = <<>>
-End == /\ l <= Len(Rec) /\ Ev.ev = "end" /\ l' = l + 1 /\ PrintT(<<"DEVS", sid, devs>>) /\ UNCHANGED <<peers, bad, devs, sid, prev, prior>>
-TInit == l = 1 /\ peers = {} /\ bad = {} /\ devs = {} /\ sid = 0 /\ prev = <<>> /\ prior = <<>>
+         /\ prev' = [q \in ToSet(Ev.peers) |-> [nodes |-> <<>>]] /\ prior' = <<>> /\ lastop' = <<>>
+End == /\ l <= Len(Rec) /\ Ev.ev = "end" /\ l' = l + 1 /\ PrintT(<<"DEVS", sid, devs>>) /\ UNCHANGED <<peers, bad, devs, sid, prev, prior, lastop>>
+TInit == l = 1 /\ peers = {} /\ bad = {} /\ devs = {} /\ sid = 0 /\ prev = <<>> /\ prior = <<>> /\ lastop = <<>>
 TNext == Begin \/ Step \/ End
 TSpec == TInit /\ [][TNext]_tvars
 Monitors == \A o \in bad : o[1] # "UNEXPLAINED"
